@@ -23,6 +23,24 @@ for q in [x for x in quals if x.startswith("@")]:
             bad += 1
             print("    [failed] %s (%s)" % (r["name"], r["detail"][:200]))
 quals = [x for x in quals if not x.startswith("@")]
+if "--fast" in sys.argv and quals:
+    # mutant self-test mode: everything in parallel, short budget, no cvc5 (a failing obligation need not be explored exhaustively)
+    import os
+    os.environ["PVC_NO_CVC5"] = "1"
+    import properties_map as PM
+    from pvc import run as R
+    for r in R.run_functions(quals, timeout_ms=8000, split=PM.SPLIT, want_smt=False):
+        if r["error"]:
+            sys.stderr.write(r["error"])
+        if r["unsupported"]:
+            print("    [unknown] %s#unsupported (%s)" % (r["qual"], r["unsupported"][:150]))
+            bad += 1
+        for o in r["results"]:
+            tot += 1
+            if o["status"] != "discharged" and not o["status"].startswith("known:"):
+                bad += 1
+                print("    [%s] %s (%s %.2fs)" % (o["status"], o["name"], o["backend"], o["secs"]))
+    quals = []
 for q in quals:
     ex = Exec(src, q)
     t = time.time()
